@@ -71,6 +71,17 @@ def rule_converters(ctx):
         start = en[0].args[1] if len(en[0].args) == 2 else dict(en[0].kw).get("start")
     good = len(en) == 1 and start is not None and tm.is_const(start, 1)
     yield ob(R, f, "io.load_delimited:row-numbers", good, "rows are numbered by enumerate(file, 1)")
+    # load_patterns reports row numbers too and counts from 1 as well (load_ragged_time_series numbers from 0 or 1
+    # depending on `header`, as published: not judged here)
+    for q2 in ("io.load_patterns",):
+        f2 = ctx.program.func(q2, R)
+        s2 = ctx.S.get(q2)
+        en2 = [y for y in s2.calls() if y.callee == "builtins.enumerate" and y.args and any(z.op == "with" for z in tm.walk(y.args[0]))]
+        need(len(en2) >= 1, R, "%s: the loop over the file's lines was not found" % q2)
+        for y in en2:
+            st2 = y.args[1] if len(y.args) == 2 else dict(y.kw).get("start")
+            ok2 = st2 is not None and tm.is_const(st2, 1)
+            yield ob(R, f2, "%s:row-numbers" % q2, ok2, "rows are numbered from 1 (the number an error message reports is the line an editor shows)" if ok2 else "rows are numbered from %s: the row an error message names is one line before the malformed one" % (tm.show(st2, 1) if st2 is not None else "0 (enumerate's default)"), node=y.node)
     src = en[0].args[0] if en else None
     direct = src is not None and (src.op == "with" or (src.op == "call" and call_name(src) == ".readlines" and src.a[1][0].op == "with"))
     yield ob(R, f, "io.load_delimited:rows-are-file-lines", direct, "rows are the file object's own lines (iteration / readlines), not a re-split of its text (str.splitlines also breaks on U+2028, form feed, ...)")
